@@ -291,6 +291,7 @@ func (ts *typestate) axioms() []axiom {
 		{"fresh id (FetchAndIncrementConsumerId)", PCall("pk.Keeper.FetchAndIncrementConsumerId", -1, nil), phaseSet{0: true}},
 		{"member of the spawn queue (ConsumeIdsFromTimeQueue over the spawn-time prefix)", spawnQueue, phaseSet{2: true}},
 		{"consumer bound to a CCV channel (GetChannelIdToConsumerId)", PCall("pk.Keeper.GetChannelIdToConsumerId", 0, nil), phaseSet{3: true, 4: true}},
+		{"consumer with a client binding (element of GetAllConsumersWithIBCClients; bindings exist from launch to deletion, C17.R5)", PElemOf(PCall("pk.Keeper.GetAllConsumersWithIBCClients", -1, nil)), phaseSet{3: true, 4: true}},
 	}
 }
 
